@@ -12,6 +12,7 @@ import (
 	"fmt"
 	"hash/fnv"
 	"math"
+	"math/bits"
 	"os"
 	"reflect"
 	"runtime"
@@ -108,6 +109,7 @@ func (o OptSpec) mode() string {
 // Case is the universal, serialisable test case.
 type Case struct {
 	Prop  string `json:"prop"`
+	Arch  string `json:"goarch,omitempty"` // set when the violation was seen in a non-amd64 build
 	Gen   string `json:"gen,omitempty"`   // generator family (information only)
 	VMode string `json:"vmode,omitempty"` // value generator mode (information only)
 
@@ -334,6 +336,15 @@ var typeEnc = func() encode.Encoder {
 	return e
 }()
 
+const nativeIntBytes = bits.UintSize / 8
+
+func nativeInt(v uint64) interface{} {
+	if nativeIntBytes == 4 {
+		return int(int32(uint32(v)))
+	}
+	return int(int64(v))
+}
+
 func intSpec(name string, enc encode.Encoder, w int, conv func(uint64) interface{}) *encSpec {
 	s := &encSpec{name: name, enc: enc, width: w}
 	s.value = func(p []byte) interface{} { return conv(le(p, w)) }
@@ -354,7 +365,8 @@ func init() {
 	add(intSpec("U16", encode.U16{}, 2, func(v uint64) interface{} { return uint16(v) }))
 	add(intSpec("U32", encode.U32{}, 4, func(v uint64) interface{} { return uint32(v) }))
 	add(intSpec("U64", encode.U64{}, 8, func(v uint64) interface{} { return uint64(v) }))
-	add(intSpec("Int", encode.Int{}, 8, func(v uint64) interface{} { return int(int64(v)) }))
+	// the native int: 8 bytes on 64-bit platforms, 4 bytes on 32-bit ones
+	add(intSpec("Int", encode.Int{}, nativeIntBytes, nativeInt))
 
 	str := &encSpec{name: "String16", enc: encode.String16{}, width: 0}
 	str.value = func(p []byte) interface{} { return string(p) }
